@@ -30,7 +30,7 @@ import (
 )
 
 func init() {
-	evid.Register(&evid.Check{ID: "C14", Level: "model_checking", Run: run, QuickBudget: 170 * time.Second, ThoroughBudget: 25 * time.Minute})
+	evid.Register(&evid.Check{ID: "C14", Level: "model_checking", Run: run, QuickBudget: 300 * time.Second, ThoroughBudget: 25 * time.Minute})
 }
 
 // Universe is prefix-free as a whole and forces the path-wise vs string-wise collision a / ab.
